@@ -8,27 +8,29 @@ EXTENDS Integers, Sequences, FiniteSets, TLC, Json, FiniteSetsExt, SequencesExt
 
 Recs == ndJsonDeserialize("recs.ndjson")
 
-Kind(r, l) == IF l = 0 - 1 THEN r.uspok ELSE r.spok[l + 1]
-Constrained(r) == r.start >= 0 /\ r.stop >= 0 /\ r.stop <= r.start
-Hits(r) == {l \in r.stop..r.start : Kind(r, l) = "file"}
-Ancestors(r) == IF r.start = 0 - 1 THEN {0 - 1} ELSE 0..r.start
+U == 0 - 1
+Root == 0 - 2
+Kind(r, l) == IF l = U THEN r.uspok ELSE r.spok[l + 1]
+\* r.ua: the level the unrelated directory hangs off (-2: directly off the sandbox root)
+Ancestors(r, d) == IF d = U THEN {U} \cup (IF r.ua = Root THEN {} ELSE 0..r.ua) ELSE 0..d
+Above(r, d, s) == d # s /\ (d = Root \/ d \in Ancestors(r, s))
+RankOf(r, d) == IF d = Root THEN 0 - 1 ELSE IF d = U THEN (IF r.ua = Root THEN 0 ELSE r.ua + 1) ELSE d
+\* the directories at or above start that are not above stop; the regular files named spokfile among them
+Cands(r) == {d \in Ancestors(r, r.start) : ~Above(r, d, r.stop)}
+Hits(r) == {d \in Cands(r) : Kind(r, d) = "file"}
+Constrained(r) == r.stop \in Ancestors(r, r.start)
 
 Conforms_C17(r) ==
   /\ r.outcome \in {"found", "notfound"}                       \* it returned: no hang, crash or panic
-  /\ IF Constrained(r)
-     THEN IF Hits(r) = {} THEN r.outcome = "notfound"
-          ELSE r.outcome = "found" /\ r.level = Max(Hits(r))    \* the nearest one, never above the stop directory
-     ELSE IF r.start >= 0 /\ r.stop >= 0
-     \* start lies above stop: every directory at or above start is above the stop directory; either answer is accepted
-     THEN r.outcome = "notfound" \/ (r.level \in Ancestors(r) /\ Kind(r, r.level) = "file")
-     \* start or stop is the unrelated directory: no directory at or above start is above stop (but the spokfile-free root),
-     \* so the nearest enclosing spokfile has to be found
-     ELSE LET H == {l \in Ancestors(r) : Kind(r, l) = "file"} IN
-          IF H = {} THEN r.outcome = "notfound" ELSE r.outcome = "found" /\ r.level = Max(H)
+  /\ IF Hits(r) = {} THEN r.outcome = "notfound"               \* also when start is not below stop: nothing above stop is returned
+     ELSE /\ r.outcome = "found" /\ r.level \in Hits(r)
+          /\ \A m \in Hits(r) : RankOf(r, m) <= RankOf(r, r.level)      \* the nearest one
 
 ASSUME JsonSerialize("verdict.json",
    [Conforms_C17 |-> SetToSeq({i \in DOMAIN Recs : ~Conforms_C17(Recs[i])}),
     n |-> Len(Recs),
     nConstrainedFound |-> Cardinality({i \in DOMAIN Recs : Constrained(Recs[i]) /\ Hits(Recs[i]) # {}}),
+    nAboveBlocked |-> Cardinality({i \in DOMAIN Recs : ~Constrained(Recs[i]) /\ \E d \in Ancestors(Recs[i], Recs[i].start) :
+                                        Above(Recs[i], d, Recs[i].stop) /\ Kind(Recs[i], d) = "file"}),
     nUnconstrained |-> Cardinality({i \in DOMAIN Recs : ~Constrained(Recs[i])})])
 ==============================================================================
